@@ -712,6 +712,39 @@ def rule_h(ctx, cr):
               "RETURN can carry a value from below the top of the stack across the frame (%s): "
               "leaving an unfinished FOR loop with RETURN would hand a frame entry to the caller"
               % why)
+    # ... and it is a VALUE (the result of FNx), never a frame marker: the variants the popped
+    # entry can have at the store - through the `matches!` flag that guards it - are data only
+    VAL = "mach::val::Val"
+    data = {"Integer", "Single", "Double", "String"}
+
+    def val_variants(bb):
+        out = None
+        for c in f.conds_at(bb):
+            if c[0] == "variantin" and c[2] == VAL:
+                out = set(c[3]) if out is None else out & set(c[3])
+            elif c[0] == "variant" and c[2] == VAL:
+                out = {c[3]} if out is None else out & {c[3]}
+        return out
+    may = None
+    for c in f.conds_at(cb):
+        src = f._cond_src.get(c)
+        if c[0] == "eq" and c[2] is True and src and src.get("k") == "multi" and \
+                f.local_ty(src["local"]) == "bool":
+            sets = [val_variants(d[1]) for d in src["defs"]
+                    if d[0] == "stmt" and d[3]["k"] == "use" and
+                    f.const_of_operand(d[3]["op"]) is True]
+            sets = [x for x in sets if x is not None]
+            if sets:
+                u = set().union(*sets)
+                may = u if may is None else may & u
+    direct = val_variants(cb)
+    if direct is not None:
+        may = direct if may is None else may & direct
+    ctx.check(may is not None and may <= data, "C01.h", "return/carried-value-is-data", cst["span"],
+              "the carried entry is one of %s" % sorted(may or ()),
+              "RETURN can carry a %s entry across the frame: leaving an unfinished FOR loop with "
+              "RETURN pushes the loop's marker back above the caller's frames, one stray entry "
+              "per call" % sorted((may or {"?"}) - data))
     # control moves only after a Return marker was popped: pc store under variant Return
     pcs = f.field_stores("pc")
     okp = bool(pcs) and all(any(c[0] == "variant" and c[3] == "Return" for c in f.conds_at(b))
